@@ -30,6 +30,9 @@ POINT_SETS = {
     "uneven6": [[0, 0, 0], [0.05, 0.02, 0], [0.15, 0.1, 0.05], [1.2, 0.4, 0.1], [1.5, 1.6, 0.3], [1.55, 1.7, 0.35]],
     "zigzag5": [[0, 0, 0], [1, 0.2, 0], [1.1, 1.5, 0.2], [0.2, 1.6, 0.5], [0.1, 2.9, 0.4]],
     "three": [[0, 0, 0], [0.1, 0.05, 0.0], [2.0, 0.5, 0.3]],
+    # two long legs 0.5 apart joined by a short turn: another branch of the curve passes much closer to a point of
+    # one leg than the spacing of any fixed number of samples along the curve
+    "uturn": [[0, 0, 0], [25, 0, 0], [50, 0, 0], [75, 0, 0], [100, 0, 0], [100.3, 0.25, 0], [100, 0.5, 0], [75, 0.5, 0], [50, 0.5, 0], [25, 0.5, 0], [3, 0.5, 0]],
     "eight": [[0, 0, 0], [0.3, 0.1, 0], [0.5, 0.4, 0.1], [0.55, 0.45, 0.1], [1.5, 0.5, 0.2], [1.7, 1.2, 0.2], [1.75, 1.3, 0.3], [3.0, 1.5, 0.3]],
 }
 KINDS = ["discrete", "linear_eq", "linear_raw", "spline_eq", "spline_raw", "analytic", "line", "line_ext", "line_narrow", "circle"]
